@@ -167,7 +167,9 @@ def run(P, R, tier):
     # ---------------------------------------------------------------- C12.c natural sort of pieces
     nsort = 0
     for c in astq.own_calls(perform):
-        if isinstance(c.func, ast.Name) and c.func.id == 'sorted' and c.args and ('fragments' in norm(c.args[0]) or 'pieces' in norm(c.args[0])):
+        is_sorted = isinstance(c.func, ast.Name) and c.func.id == 'sorted' and c.args and ('fragments' in norm(c.args[0]) or 'pieces' in norm(c.args[0]))
+        is_sort = isinstance(c.func, ast.Attribute) and c.func.attr == 'sort' and ('fragments' in norm(c.func.value) or 'pieces' in norm(c.func.value))
+        if is_sorted or is_sort:
             nsort += 1
             key = astq.arg_of(c, kw='key')
             ok = False
@@ -182,7 +184,8 @@ def run(P, R, tier):
                 ok = bool(r and r[0] == 'ext' and r[1].endswith('natural_sort_key'))
             R.check(ok, 'C12.c', perform, c, 'pieces are ordered by the natural sort key of their path',
                     'pieces are not ordered by the natural key of their path: part.10 loads before part.2, so partitions and recorded bounds are misaligned')
-    R.floor('C12.c', 'piece sorting sites', nsort, 1)
+    if nsort == 0:
+        R.bad('C12.c', perform, None, 'dataset pieces are not sorted at all: their order is whatever the filesystem listing returns', construct='natural sort of pieces')
     # the sorted list is what is read, in that order
     ok = any(isinstance(n, ast.ListComp) and 'delayed' in norm(n.elt) and 'pieces' in norm(n.generators[0].iter) for n in walk_own(perform.node))
     R.check(ok, 'C12.c', perform, None, 'one delayed read per piece in sorted order', 'delayed partitions are not built from the sorted pieces in order',
